@@ -682,7 +682,7 @@ func VerifC15RuntimeNil() {
 	ctx := context.Background()
 	vcfg("fifo", 1)
 	vcfg("selectfirst", 1)
-	kind := vchoose("kind", 8)
+	kind := vchoose("kind", 9)
 	var run func(stream bool) error
 	switch kind {
 	case 0: // a nil value of an any-typed source field mapped to the whole (any-typed) input of END
@@ -757,6 +757,31 @@ func VerifC15RuntimeNil() {
 			_, e := r.Invoke(ctx, in)
 			return e
 		}
+	case 8: // the same nil mapped to a non-nillable (string) input: an ordinary run-time error, in both paradigms
+		wf := NewWorkflow[map[string]any, string]()
+		wf.AddLambdaNode("c", InvokableLambda(func(ctx context.Context, in string) (string, error) {
+			return in, nil
+		})).AddInput(START, FromFieldPath(FieldPath{"F1", "k", "j"}))
+		wf.End().AddInput("c")
+		r, err := wf.Compile(ctx)
+		vassert(err == nil, "compiles (the type below the any value is only known at run time)")
+		in := map[string]any{"F1": map[string]any{"k": map[string]any{"j": nil}}}
+		run = func(stream bool) error {
+			if stream {
+				sr, e := r.Stream(ctx, in)
+				if e != nil {
+					return e
+				}
+				defer sr.Close()
+				_, e = sr.Recv()
+				if e == io.EOF {
+					return nil
+				}
+				return e
+			}
+			_, e := r.Invoke(ctx, in)
+			return e
+		}
 	case 2, 3, 4, 5, 6: // a path below an any-typed value that holds something without that field
 		wf := NewWorkflow[map[string]any, map[string]any]()
 		wf.End().AddInput(START, MapFieldPaths(FieldPath{"F1", "x"}, FieldPath{"out"}))
@@ -794,6 +819,9 @@ func VerifC15RuntimeNil() {
 	rerr := run(vchoose("stream", 2) == 1)
 	if kind >= 2 && kind <= 6 {
 		vassert(rerr != nil, "a path below a value that has no such field is a run-time error")
+	}
+	if kind == 8 {
+		vassert(rerr != nil, "a nil taken below an any-typed value does not fit a string input: a run-time error")
 	}
 	if rerr != nil {
 		vassert(!strings.Contains(rerr.Error(), "panic"), "reported as an ordinary error, not a recovered panic")
